@@ -315,6 +315,25 @@ def gen_params(rng, case, pi_method=None, estimands=None):
     if pi_method == "bootstrap" and rng.random() < 0.1:
         mp["agg_model_hard_threshold"] = False
         mp["T"] = rng.choice([25, 5000])
+    if pi_method == "bootstrap":
+        # the remaining knobs of the bootstrap (each reaches code the defaults leave alone)
+        r_ = rng.random()
+        if r_ < 0.08:
+            mp["strata"] = []
+        elif r_ < 0.16:
+            mp["strata"] = ["county_classification", "postal_code"]
+        if rng.random() < 0.1:
+            mp["y_LB"], mp["y_UB"] = -0.2, 0.2
+        if rng.random() < 0.1:
+            mp["z_LB"], mp["z_UB"] = -0.3, 0.6
+        if rng.random() < 0.1:
+            mp["percent_expected_vote_error_bound"] = rng.choice([0.25, 1.0])
+        if rng.random() < 0.1:
+            mp["z_unobserved_lower_bound"], mp["z_unobserved_upper_bound"] = 0.7, 1.3
+        if rng.random() < 0.05:
+            mp["y_unobserved_lower_bound"], mp["y_unobserved_upper_bound"] = -0.9, 0.9
+        if len(case["states"]) >= 2 and rng.random() < 0.1:
+            mp["states_for_separate_model"] = [case["states"][0]]
     fes = {}
     if rng.random() < 0.35 and pi_method != "bootstrap":
         fes = rng.choice([{"postal_code": "all"}, {"county_classification": "all"}, ["county_classification"],
